@@ -85,6 +85,38 @@ def check(run):
     A += [a for a, _, _ in special]
     for v in (0, 1):
         a = base(); a["x"] = [v]; A.append(a)
+    # inputs whose INTERNAL (Montgomery) limbs complement those of the constant the graph adds to them directly (limb 0 sums to 2^64,
+    # limb 1 to 2^64 - 1 with that carry coming in): the carry chain of a multi-limb addition, read off the current graph.bin
+    try:
+        import sys as _sys
+        _sys.path.insert(0, os.path.join(core.VERIF, "tools"))
+        import extract as _ex
+        gnodes, _, ginfo, _, _ = _ex.parse_graph_bin(open(os.path.join(core.REPO, "rln/resources/tree_height_20/graph.bin"), "rb").read())
+        g_inp = {k: int(n.split()[1]) for k, n in enumerate(gnodes) if n.startswith(".input")}
+        g_const = {k: int(n.split()[1]) for k, n in enumerate(gnodes) if n.startswith(".montConstant")}
+        by_off = {}
+        for nm, off, ln in ginfo:
+            for j in range(ln):
+                by_off[off + j] = (nm, j)
+        Rinv = pow(pow(2, 256, P), P - 2, P)
+        made = 0
+        for n in gnodes:
+            if not n.startswith(".duo .Add"):
+                continue
+            _, _, u, w = n.split(); u, w = int(u), int(w)
+            for (i_, c_) in ((u, w), (w, u)):
+                if i_ in g_inp and c_ in g_const and g_inp[i_] in by_off and made < (3 if quick else 12):
+                    nm, j = by_off[g_inp[i_]]
+                    if nm in ("messageId", "userMessageLimit", "identityPathIndex"):
+                        continue
+                    c = (g_const[c_] * pow(2, 256, P)) % P        # the container stores canonical values; arkworks adds their Montgomery forms
+                    c0, c1 = c & (2**64 - 1), (c >> 64) & (2**64 - 1)
+                    xm = ((2**64 - c0) % 2**64) + (((2**64 - 1 - c1) % 2**64) << 64)
+                    a = base(); a[nm][j] = (xm * Rinv) % P
+                    A.append(a); made += 1
+        run.cov["carry_chain_inputs"] = made
+    except Exception as e:
+        run.note("carry-chain inputs not generated: " + repr(e)[:120])
     # assignments the reference generator must reject (the partition of C12): they are NOT compared, only counted
     U = []
     for lim, mid in [(100, 100), (70000, 1), (2**17, 2**16), (0, 0)]:
@@ -146,5 +178,5 @@ def check(run):
             pseqs.append([bline(a, "-"), bline(a, pt), bline(a, "-"), line_of(a, NAMES), bline(A[0], pt), bline(a, "-")])
     run.differential("bundled-buffer-reuse", pseqs, shrink=False)
     run.sample({"assignment": {k: [hex(v) for v in A[0][k]][:3] for k in NAMES}, "witness_prefix": impl[0][:160]})
-    run.rules.append("assignments of the 46 inputs: limb-boundary and near-modulus values in each field position (sampled positions in quick), one-hot / all-zero / all-one direction patterns, message ids 0 / limit-1 for limits 1, 2, 2^16, all-zero and all-(p-1) vectors, random ones, and assignments chosen so that an INTERNAL multiplication operand is exactly 0 / 1 / -1 (sibling = running hash + d at a level, both directions; x in {0,1}); for each the COMPLETE 5844-element witness of calculate_rln_witness is compared with the reference generator rln.wasm (node) and with the Lean model's evaluation of the regenerated graph, and recomputed with the named inputs in a shuffled order; the same evaluation repeated from a caller-owned buffer that is refilled in place with another graph of equal length in between (purity across calls); distinct = distinct assignment")
+    run.rules.append("assignments of the 46 inputs: limb-boundary and near-modulus values in each field position (sampled positions in quick), one-hot / all-zero / all-one direction patterns, message ids 0 / limit-1 for limits 1, 2, 2^16, all-zero and all-(p-1) vectors, random ones, and assignments chosen so that an INTERNAL multiplication operand is exactly 0 / 1 / -1 (sibling = running hash + d at a level, both directions; x in {0,1}; an input whose Montgomery limbs complement those of the constant the graph adds to it); for each the COMPLETE 5844-element witness of calculate_rln_witness is compared with the reference generator rln.wasm (node) and with the Lean model's evaluation of the regenerated graph, and recomputed with the named inputs in a shuffled order; the same evaluation repeated from a caller-owned buffer that is refilled in place with another graph of equal length in between (purity across calls); distinct = distinct assignment")
     run.cov["distinct_nontrivial"] = run.cov["distinct_nontrivial"]
